@@ -49,6 +49,12 @@ class NullFlow(Engine):
                          key[2], key[3], self.entry, self.witness(st))
             self.findings.setdefault(fd.key, fd)
 
+    def on_zip_truncate(self, st, node, length=0, what=''):
+        # inside inspect(): a listing zipped with a fixed-length sequence stops after that many elements
+        if any(f.func is not None and f.func.name == 'inspect' for f in st.frames):
+            self.find_('INSPECT-SOURCES', st, node, f'zip(<{length} fixed values>, {what})',
+                       f'the loop over {what} is zipped with a sequence of {length} values and stops there: a message that names more elements has the others left out of the report')
+
     def on_parse(self, st, node, name=None, args=(), kwargs=None):
         self.parses.setdefault(self.entry, set()).add((name.split('.')[-1], tuple(self.describe(a, st) for a in args), tuple(sorted(kwargs or {}))))
 
